@@ -156,9 +156,10 @@ func validationFocusTexts() []string {
 	for static := 0; static <= 4; static++ {
 		for dyn := 0; dyn <= 1; dyn++ {
 			// body found: the dependent body's block type (disk) may be generated; rule is static
-			out = append(out, fmt.Sprintf("res \"aws\" {\n  id = \"i\"\n  zone = \"z\"\n%s%s}\n", blocks("disk", "size", static, dyn), blocks("rule", "port", 2, 0)))
+			// (a blank line at the end of the body: a place where something can still be added)
+			out = append(out, fmt.Sprintf("res \"aws\" {\n  id = \"i\"\n  zone = \"z\"\n%s%s  \n}\n", blocks("disk", "size", static, dyn), blocks("rule", "port", 2, 0)))
 			// no body registered for the label: every static block type (rule) may be generated
-			out = append(out, fmt.Sprintf("res \"other\" {\n  id = \"i\"\n%s}\n", blocks("rule", "port", static, dyn)))
+			out = append(out, fmt.Sprintf("res \"other\" {\n  id = \"i\"\n%s  \n}\n", blocks("rule", "port", static, dyn)))
 		}
 	}
 	out = append(out,
